@@ -23,14 +23,31 @@ impl CellText {
         CellText { start, content }
     }
 
+    /// the number of cells this text occupies: a double-width character takes
+    /// 2 cells, its filler (if present) takes none, any other character takes 1 cell,
+    /// regardless of how many bytes its utf8 encoding has.
+    fn width_in_cells(&self) -> i32 {
+        use unicode_width::UnicodeWidthChar;
+        self.content
+            .chars()
+            .map(|ch| {
+                if ch == '\0' {
+                    0
+                } else {
+                    ch.width().unwrap_or(1).max(1) as i32
+                }
+            })
+            .sum()
+    }
+
     fn end_cell(&self) -> Cell {
-        Cell::new(self.start.x + self.content.len() as i32, self.start.y)
+        Cell::new(self.start.x + self.width_in_cells(), self.start.y)
     }
 
     /// get the cells of this text
     /// TODO: use iterator
     fn cells(&'_ self) -> impl IntoIterator<Item = Cell> + '_ {
-        let range = self.start.x..(self.start.x + self.content.len() as i32);
+        let range = self.start.x..(self.start.x + self.width_in_cells());
         range.map(move |x| Cell::new(x, self.start.y))
     }
 
@@ -50,8 +67,8 @@ impl CellText {
     /// text can merge if they are next to each other and at the same line
     pub(crate) fn can_merge(&self, other: &Self) -> bool {
         self.start.y == other.start.y
-            && (self.start.x + self.content.len() as i32 == other.start.x
-                || other.start.x + other.content.len() as i32 == self.start.x)
+            && (self.start.x + self.width_in_cells() == other.start.x
+                || other.start.x + other.width_in_cells() == self.start.x)
     }
 
     pub(crate) fn merge(&self, other: &Self) -> Option<Self> {
